@@ -35,7 +35,8 @@ RULE = ("job = seed -> scenario (version x flavour x options) x victim role; "
         "and the victim processed it"
         ' closeSocket=False dimension; every record the victim produced (incl. its alert) must be on the wire when its call raises; compressed-certificate bombs also declare lengths 0 and 1.'
         ' Well-formed SSLv2-compatible ClientHello with boundary challenge lengths.'
-        ' Structural kinds also: ext_empty / ext_short (one extension of a hello / EncryptedExtensions / CertificateRequest keeps its type but has an empty or truncated payload, also on later messages of the flight), sig_other_family (CertificateVerify / ServerKeyExchange naming an advertised signature algorithm of another key family), sh_psk_index (ServerHello selecting a PSK identity that was not offered).')
+        ' Structural kinds also: ext_empty / ext_short (one extension of a hello / EncryptedExtensions / CertificateRequest keeps its type but has an empty or truncated payload, also on later messages of the flight), sig_other_family (CertificateVerify / ServerKeyExchange naming an advertised signature algorithm of another key family), sh_psk_index (ServerHello selecting a PSK identity that was not offered).'
+        " The victim's transport may fail (timeout / EPIPE / reset) exactly while it writes its fatal alert (still: documented exception, closed, not resumable).")
 LEVEL_TEXT = ("Seeded mutation search at every message index of the drawn "
               "flavours, both roles, with deterministic work and memory "
               "meters.  Sampling; the byzantine encoder is tlslite's own.")
@@ -55,7 +56,8 @@ RECORD = ["oversize_record", "empty_record", "unknown_type", "sslv2_garbage",
           "hs_len_max_eof", "sslv2_hello"]
 PROBES = mutate.GENERIC + STRUCT + RECORD + [
     "victim_client", "victim_server", "post_handshake", "memory_metered",
-    "clean_alert", "tls13", "legacy", "close_socket_false"]
+    "clean_alert", "tls13", "legacy", "close_socket_false",
+    "alert_write_fault"]
 COMPONENTS_REAL = ["all tlslite parsers reached through live handshakes, "
                    "error mapping in _getMsg/_getNextRecordFromSocket, "
                    "certificate (de)compression, x509 parsing"]
@@ -293,6 +295,7 @@ def run(job, streams=None):
         viol.append({"rule": rule, "sig": sig, "msg": msg + " " + ctx[0]})
 
     vtap = [None]
+    awf_tap = [None]
     keep_socket = ch.draw(3, "cfg.keepsock") == 1
     if keep_socket:
         probes["close_socket_false"] = 1
@@ -309,6 +312,14 @@ def run(job, streams=None):
         # the application may keep ownership of the socket
         if keep_socket:
             vic.conn.closeSocket = False
+        if rules:
+            # (mutated run) the victim's transport may fail exactly while it
+            # writes its fatal alert: still a documented exception, closed,
+            # not resumable
+            awf = [None, None, None, "timeout", "epipe", "reset"][
+                ch.draw(6, "cfg.awf")]
+            awf_tap[0] = taps.AlertWriteFault(vic.conn, vic.sock, awf) \
+                if awf else None
         return sim, pair, peer, vic, ip, mt
 
     def op_gen(ep, op):
@@ -546,7 +557,8 @@ def run(job, streams=None):
                     rp = net.RecordParser()
                     on_wire = len(rp.feed(bytes(out_pipe.wire_log)))
                     made = len(vtap[0].records)
-                    if on_wire < made and not rp.buf:
+                    if on_wire < made and not rp.buf and not (
+                            awf_tap[0] is not None and awf_tap[0].fired):
                         v("alert_first", "not_on_wire|%s|%s" % (
                             "client" if victim == "c" else "server",
                             "keep_socket" if keep_socket else "close_socket"),
@@ -562,6 +574,8 @@ def run(job, streams=None):
                   "session resumable after %r" % (e,))
     if fired and vic.history and vic.history[0].kind == "ok":
         processed = True
+    if awf_tap[0] is not None and awf_tap[0].fired:
+        probes["alert_write_fault"] = 1
     if fired:
         if work > WORK_A + WORK_B * rx_bytes:
             v("work", kind, "work counter %d exceeds %d + %d*%d bytes" %
